@@ -21,8 +21,14 @@ StrDom  == {NULL, SV(<<>>), SV(<<97>>), SV(<<97, 98>>), SV(<<98, 97>>), SV(<<97,
             SV(<<37>>), SV(<<95>>), SV(<<111, Q, 114>>), SV(<<92>>), SV(<<97, 32, 98>>)}
 BoolDom == {NULL, TRUEV, FALSEV}
 TimeDom == {NULL, TV(2019, 12, 31, 23, 59, 59), TV(2020, 2, 29, 0, 0, 0), TV(2021, 1, 1, 10, 5, 0)}
-ColDom == [n |-> IntDom, m |-> IntDom, s |-> StrDom, u |-> StrDom, b |-> BoolDom, d |-> TimeDom]
-ColOrder == <<"n", "m", "s", "u", "b", "d">>
+\* temporal columns: a second instant, a calendar date, a time of day, a duration
+Time2Dom == {NULL, TV(2020, 2, 28, 23, 0, 0), TV(2020, 1, 1, 0, 0, 0), TV(2021, 1, 1, 10, 5, 0)}
+DateDom == {NULL, <<"d", 2019, 12, 31>>, <<"d", 2020, 2, 29>>, <<"d", 2021, 1, 1>>}
+TodDom  == {NULL, <<"tod", 0, 0, 0>>, <<"tod", 10, 5, 0>>, <<"tod", 23, 59, 59>>}
+DurDom  == {NULL, <<"dur", -60>>, <<"dur", 0>>, <<"dur", 3600>>, <<"dur", 86400>>}
+ColDom == [n |-> IntDom, m |-> IntDom, s |-> StrDom, u |-> StrDom, b |-> BoolDom, d |-> TimeDom,
+           e |-> Time2Dom, dd |-> DateDom, tt |-> TodDom, du |-> DurDom]
+ColOrder == <<"n", "m", "s", "u", "b", "d", "e", "dd", "tt", "du">>
 
 nC == Id0("n")  mC == Id0("m")  sC == Id0("s")  uC == Id0("u")  bC == Id0("b")  dC == Id0("d")
 HB == Hole("B")  HI == Hole("I")  HS == Hole("S")  HT == Hole("T")
@@ -68,6 +74,11 @@ ExpandMisc(h) ==
                                        Cmp("in", nC, Lst(<<IntL(0)>>)), Cmp("in", sC, Lst(<<SL(<<>>), SL(<<97, 95, 98>>)>>)),
                                        Cmp("eq", C2("contains", sC, SL(<<97>>)), BoolL("true")),
                                        Cmp("eq", C2("endswith", sC, SL(<<98>>)), BoolL("false")),
+                                       \* ... and the mirror images: a boolean-valued call as the RIGHT operand, on both sides
+                                       Cmp("eq", BoolL("true"), C2("contains", sC, SL(<<97>>))),
+                                       Cmp("ne", BoolL("false"), C2("startswith", sC, SL(<<97>>))),
+                                       Cmp("eq", C2("contains", sC, SL(<<97>>)), C2("endswith", sC, SL(<<98>>))),
+                                       Cmp("ne", C2("startswith", sC, uC), C2("contains", uC, SL(<<97>>))),
                                        Cmp("eq", Cmp("gt", nC, IntL(0)), Cmp("gt", mC, IntL(0))),
                                        Cmp("eq", Cmp("eq", nC, IntL(1)), BoolL("true")) } }
                   \cup { <<0, Cmp(o, C1(f, dC), IntL(k))>> : o \in {"eq", "gt"},
@@ -96,7 +107,42 @@ ExpandFns(h) ==
     [] h = "S" -> { <<0, sC>>, <<0, SL(<<97>>)>> }
                   \cup { <<1, C2("concat", HS, HS)>>, <<1, C1("trim", HS)>>, <<1, C2("substring", HS, HI)>>, <<1, C1("toupper", HS)>> }
     [] h = "T" -> { <<0, dC>>, <<0, T1>>, <<0, Call(Id0("now"), <<>>)>> }
-Expand(h) == CASE Profile = "logic" -> ExpandLogic(h) [] Profile = "fns" -> ExpandFns(h) [] Profile = "math" -> ExpandMath(h) [] Profile = "arith" -> ExpandArith(h)
+\* temporal values: dates, times of day, durations, instants written with offsets, and the arithmetic between them.
+\* Per backend only what its engine binding can represent: the raw SQLite dialect has no duration values
+\* (INTERVAL syntax), SQLAlchemy on SQLite emulates Interval as a date-time (no arithmetic), stores naive
+\* date-times (offset-bearing literals lose their offset in the driver) and CASTs to DATE/TIME numerically.
+eC == Id0("e")  ddC == Id0("dd")  ttC == Id0("tt")  duC == Id0("du")
+DL(x) == Lit("Date", x)  TL(x) == Lit("Time", x)  UL(x) == Lit("Duration", x)  XL(x) == Lit("DateTime", x)
+OffsetLits == { XL("2020-02-29T01:00:00+01:00"), XL("2020-02-28T23:00:00-01:00"), XL("2019-12-31T23:59:59Z"), XL("2021-01-01T15:35:00+05:30") }
+DurLits == { UL("PT1H"), UL("P1D"), UL("PT0S"), UL("-PT1M"), UL("PT1S"), UL("P1DT1H") }
+ExpandTemporal(h) ==
+  CASE h = "B" -> { <<0, Cmp(o, ddC, DL(x))>> : o \in {"eq", "lt", "ge"}, x \in {"2020-02-29", "2021-01-01"} }
+                  \cup (IF Backend = "sqlite" THEN {}       \* the SQL dialects refuse time-of-day literals and second()
+                        ELSE { <<0, Cmp(o, ttC, TL(x))>> : o \in {"eq", "lt", "ge"}, x \in {"10:05:00", "00:00:00", "23:59:59"} }
+                             \cup { <<0, Cmp("eq", C1("second", ttC), IntL(59))>> })
+                  \cup { <<0, Cmp("eq", ddC, NullL)>>, <<0, Cmp("ne", ttC, NullL)>>, <<0, Cmp("in", ddC, Lst(<<DL("2019-12-31"), DL("2021-01-01")>>))>> }
+                  \cup { <<0, Cmp("eq", C1(f, ddC), IntL(k))>> : <<f, k>> \in {<<"year", 2020>>, <<"month", 12>>, <<"day", 29>>} }
+                  \cup { <<0, Cmp("eq", C1(f, ttC), IntL(k))>> : <<f, k>> \in {<<"hour", 10>>, <<"minute", 59>>} }
+                  \cup { <<0, Cmp(o, HT, x)>> : o \in {"eq", "lt", "ge"}, x \in {T1, eC} }
+                  \cup (IF Backend = "sqlalchemy" THEN {} ELSE { <<0, Cmp(o, HT, x)>> : o \in {"eq", "gt"}, x \in OffsetLits })
+                  \cup (IF Backend = "sqlite" THEN {}
+                        ELSE { <<0, Cmp(o, duC, x)>> : o \in {"eq", "lt", "ge"}, x \in {UL("PT1H"), UL("PT0S"), UL("P1D")} }
+                             \cup { <<0, Cmp("eq", duC, NullL)>>, <<0, Cmp("in", duC, Lst(<<UL("-PT1M"), UL("P1D")>>))>> })
+                  \cup (IF Backend = "sqlalchemy" THEN {}
+                        ELSE { <<0, Cmp(o, C1("date", HT), x)>> : o \in {"eq", "lt"}, x \in {ddC, DL("2020-02-29")} })
+                  \cup (IF Backend # "django" THEN {}
+                        ELSE { <<0, Cmp(o, C1("time", HT), x)>> : o \in {"eq", "ge"}, x \in {ttC, TL("00:00:00"), TL("10:05:00")} }
+                             \cup { <<0, Cmp(o, Hole("U"), x)>> : o \in {"eq", "gt", "le"}, x \in {UL("PT1H"), UL("PT0S"), duC} }
+                             \cup { <<0, Cmp(o, Bin("add", ddC, UL("P1D")), DL(x))>> : o \in {"eq", "lt"}, x \in {"2020-03-01", "2020-01-01", "2021-01-02"} }
+                             \cup { <<0, Cmp("eq", Bin("sub", ddC, UL("P1D")), DL("2020-02-28"))>>,
+                                    <<0, Cmp("ge", Bin("sub", ddC, DL("2020-02-28")), UL("P1D"))>> })
+                  \cup { <<1, Bool("and", HB, HB)>>, <<1, Bool("or", HB, HB)>>, <<1, Un("not", HB)>> }
+    [] h = "T" -> { <<0, dC>>, <<0, eC>> }
+                  \cup (IF Backend # "django" THEN {}
+                        ELSE { <<1, Bin(o, HT, x)>> : o \in {"add", "sub"}, x \in DurLits \cup {duC} })
+    [] h = "U" -> { <<1, Bin("sub", HT, HT)>>, <<1, Bin("add", duC, duC)>>, <<1, Bin("sub", duC, UL("PT1H"))>>,
+                    <<1, Bin("add", UL("PT1H"), duC)>>, <<0, duC>> }
+Expand(h) == CASE Profile = "temporal" -> ExpandTemporal(h) [] Profile = "logic" -> ExpandLogic(h) [] Profile = "fns" -> ExpandFns(h) [] Profile = "math" -> ExpandMath(h) [] Profile = "arith" -> ExpandArith(h)
                [] Profile = "strings" -> ExpandStrings(h) [] Profile = "misc" -> ExpandMisc(h)
 
 Init == t = HB /\ n = 0
